@@ -238,3 +238,22 @@ func (c Cfg) Hint() Hint {
 	}
 	return h
 }
+
+// TameBig bounds the parameters whose cost grows with the product of buffer
+// size and parameter value (OSAP scans every shared-prefix length up to
+// MaxMatchLen: with "no limit" a run of 64 Ki equal bytes costs minutes of
+// legitimate work) for cases with large buffers. Small buffers keep the
+// extreme values.
+func (c *Cfg) TameBig() {
+	if c.Type == "OSAP" && (c.BufferSize == 0 || c.BufferSize > 20000) {
+		if c.MinMatchLen > 16 {
+			c.MinMatchLen = 3
+		}
+		if c.MaxMatchLen > 1000 {
+			c.MaxMatchLen = 273
+		}
+		if c.MaxMatchLen != 0 && c.MaxMatchLen < c.MinMatchLen {
+			c.MaxMatchLen = c.MinMatchLen
+		}
+	}
+}
